@@ -110,6 +110,10 @@ class Prov:
         self._memo = {}
         self._defs = {}
         self._closure_sites = {}
+        self._mut_idx = {}
+        self._in_progress = set()
+        self._cycle_hits = 0
+        self._depth = 0
 
     # ---------------------------------------------------------------- definitions
     def defs(self, fn):
@@ -216,9 +220,21 @@ class Prov:
         m = self._memo.get(key)
         if m is not None:
             return m
-        self._memo[key] = ("cycle",)
-        o = self._local(fn, l, site)
-        self._memo[key] = o
+        if key in self._in_progress:
+            self._cycle_hits += 1
+            return ("cycle",)
+        self._in_progress.add(key)
+        hits0 = self._cycle_hits
+        self._depth += 1
+        try:
+            o = self._local(fn, l, site)
+        finally:
+            self._depth -= 1
+            self._in_progress.discard(key)
+        # results computed while a cycle marker was handed out below are only cached for the outermost query:
+        # an inner value may contain a placeholder for a definition that was still being evaluated
+        if self._cycle_hits == hits0 or self._depth == 0:
+            self._memo[key] = o
         return o
 
     def _local(self, fn, l, site):
@@ -253,6 +269,15 @@ class Prov:
                 updates.append((("[]",), o))
             else:
                 updates.append((path, o))
+        # calls that receive `&mut local` may change it: record them so that taint queries see them
+        for mb, mt, mai in self.mut_index(fn).get(l, []):
+            if site is not None and not self._reaches(fn, (mb, "t"), site):
+                continue
+            c = mt["callee"]
+            if c["name"] in ("reserve", "reserve_exact", "shrink_to_fit", "clear", "truncate", "sort", "dedup"):
+                continue
+            others = tuple(self.operand(fn, a, (mb, "t")) for j, a in enumerate(mt["args"]) if j != mai)
+            updates.append((("&mut",), ("call", c["key"], others, c.get("resolved"), (fn.key, mb))))
         whole = [w for w in whole if w != ("cycle",)] or whole
         if not whole:
             base = ("unknown", "undef _%d" % l)
@@ -373,12 +398,43 @@ class Prov:
 
     def mutations(self, fn, l):
         """calls that receive `&mut local` (directly or via reborrow temps)"""
-        out = []
+        return list(self.mut_index(fn).get(l, []))
+
+    def mut_index(self, fn):
+        """{local: [(block, call terminator, argument index)]} for arguments that are `&mut local` (whole local,
+        directly or through reborrow temporaries)"""
+        idx = self._mut_idx.get(fn.key)
+        if idx is not None:
+            return idx
+        idx = {}
         for bid, t in fn.calls():
             for ai, a in enumerate(t["args"]):
-                if a["k"] in ("copy", "move"):
-                    if self._is_mut_borrow_of(fn, a["place"], l, 0):
-                        out.append((bid, t, ai))
+                if a["k"] in ("copy", "move") and not any(e["k"] == "field" for e in a["place"]["p"]):
+                    for root in self._mut_roots(fn, a["place"]["l"], 0, set()):
+                        idx.setdefault(root, []).append((bid, t, ai))
+        self._mut_idx[fn.key] = idx
+        return idx
+
+    def _mut_roots(self, fn, tmp, depth, seen):
+        """locals L such that temporary `tmp` is `&mut L` (possibly via reborrows / casts)"""
+        out = set()
+        if depth > 6 or tmp in seen:
+            return out
+        seen.add(tmp)
+        for kind, bid, i, x in self.defs(fn).get(tmp, []):
+            if kind != "assign" or x["dst"]["p"]:
+                continue
+            rv = x["rv"]
+            if rv["k"] == "ref" and rv["mut"]:
+                pl = rv["place"]
+                if any(e["k"] == "field" for e in pl["p"]):
+                    continue
+                if any(e["k"] == "deref" for e in pl["p"]):
+                    out |= self._mut_roots(fn, pl["l"], depth + 1, seen)
+                else:
+                    out.add(pl["l"])
+            elif rv["k"] in ("use", "cast") and rv["op"]["k"] in ("copy", "move") and not rv["op"]["place"]["p"]:
+                out |= self._mut_roots(fn, rv["op"]["place"]["l"], depth + 1, seen)
         return out
 
     def _is_mut_borrow_of(self, fn, pl, l, depth):
@@ -479,10 +535,16 @@ def variant(o, v):
 
 
 def peel(o):
-    """strip value-preserving wrappers at the top"""
-    while o[0] == "vp":
-        o = o[2]
-    return o
+    """strip value-preserving wrappers at the top; an object that was only handed out as `&mut` to calls
+    (no direct field writes) is still that object for shape matching — taint queries (leaves/contains)
+    keep seeing the recorded calls"""
+    while True:
+        if o[0] == "vp":
+            o = o[2]
+        elif o[0] == "upd" and all(p == ("&mut",) for p, v in o[2]):
+            o = o[1]
+        else:
+            return o
 
 
 def deep_peel(o):
